@@ -40,6 +40,7 @@ fn vs_poll_closed_state_terminates() {
     assert!(reader_closed(&t) && writer_closed(&t), "C08: both stream halves learn that the connection is gone");
     assert!(sent_n() == 0, "C08: a finished connection emits no further datagram");
     finish(t);
+    kani::cover!(true, "end of harness reachable (assumptions satisfiable, no unconditional failure)");
 }
 }
 
@@ -74,5 +75,6 @@ fn vs_poll_inactivity_timeout_fails_connection() {
         assert!(h.htype == Type::ST_FIN && h.seq_nr == SeqNr(OUR_SEQ), "C17: the farewell FIN carries the next sequence number");
     }
     finish(t);
+    kani::cover!(true, "end of harness reachable (assumptions satisfiable, no unconditional failure)");
 }
 }
